@@ -19,6 +19,7 @@ INVARIANT ActiveReported
 INVARIANT ExecutedInExactlyOneTrade
 PROPERTY Conservation
 PROPERTY CashStep
+PROPERTY FlushPerFill
 PROPERTY ReserveRelease
 PROPERTY RejectIff
 PROPERTY FinalIsFinal
